@@ -201,7 +201,9 @@ Definition astep (fixed : bool) (s : aio) (l : alabel) : option aio :=
                     (g_cb_after_stop s) (g_subs_at_stop s) (threads s))
   | LExpire now =>
       (* the scan: the aio is due, is unlinked and marked; it is processed later in the batch *)
-      if a_on_eq s then
+      (* (one expire thread per queue scans and then processes its batch: an aio it still
+          holds from the previous scan cannot be marked again) *)
+      if a_on_eq s && negb (a_expiring s) then
         let due := match a_expire s with Some e => N.ltb e now | None => false end in
         if negb due then None else
         Some (spawn (mkAio (a_stop s) (a_abort s) true (a_expire_ok s) (a_sleep s) (a_cancel s) false (a_expire s)
